@@ -79,6 +79,7 @@ func runC08(c *Ctx) {
 	ruleFailurePath(c, "R8.7")
 	ruleStateAccessUnderLock(c, "R8.8")
 	ruleSeenPacketsOnlyGrow(c, "R8.9")
+	ruleStateReadErrorsStop(c, "R8.11")
 	ruleJoinerSignatures(c, "R8.10") // a proposal moves the state only if every joiner it names signed its own identity
 }
 
@@ -862,4 +863,127 @@ func ruleSeenPacketsOnlyGrow(c *Ctx, rule string) {
 		})
 	}
 	c.Floor(rule, "writers of the seen-packets set", nW, 2)
+}
+
+// R8.11: a failure to read the node's own DKG records stops the command or packet: the error of Store.GetCurrent /
+// GetFinished is returned on its failure edge. A read error taken for "nothing recorded" lets a member judge a proposal
+// as a fresh node would (no epoch rule, no genesis and membership continuity), and its current epoch can fall below the
+// completed one.
+func ruleStateReadErrorsStop(c *Ctx, rule string) {
+	c.ranRules[rule] = true
+	n := 0
+	for _, root := range c.P.SubjectFns() {
+		if isControlFn(root) || root.Parent() != nil || fnPkgPath(root) != modPath+"/internal/dkg" {
+			continue
+		}
+		for _, fn := range withClosures(root) {
+			for _, ci := range callsIn(fn, func(ci ssa.CallInstruction) bool {
+				cc := ci.Common()
+				return cc.IsInvoke() && (cc.Method.Name() == "GetCurrent" || cc.Method.Name() == "GetFinished") && strings.HasSuffix(typeShort(cc.Value.Type()), "dkg.Store")
+			}) {
+				call, ok := ci.(*ssa.Call)
+				if !ok {
+					continue
+				}
+				n++
+				evs := errValuesOf(call)
+				idx := errResultIndex(fn)
+				good, why := false, "the error is not tested"
+				if len(evs) > 0 && idx >= 0 {
+					ev := evs[0]
+					// blocks reachable once the read is known to have failed
+					var failTargets []*ssa.BasicBlock
+					for _, b := range fn.Blocks {
+						for si := range b.Succs {
+							e := edge{b, si}
+							for _, cj := range edgeConjuncts(e) {
+								x, isEq, isNil := nilTest(cj.cond)
+								if isNil && derivesFrom(x, ev, 0) && cj.truth != isEq {
+									failTargets = append(failTargets, e.to())
+								}
+							}
+						}
+					}
+					// the success edge must exist too, and everything else is reached only through it
+					if len(failTargets) > 0 {
+						good, why = true, "returned on the failure edge"
+						for _, ft := range failTargets {
+							reach := reachableFrom(ft, func(edge) bool { return false })
+							for _, leaf := range returnLeaves(fn, idx) {
+								if !reach[leaf.at.Block()] {
+									continue
+								}
+								if !errComesFrom(leaf.v, ev, 0) {
+									good, why = false, "after a failed read a path returns "+trimTemps(pathOf(leaf.v))+" at "+shortPos(c.P, leaf.at)+" instead of the read's error"
+								}
+							}
+						}
+						// the value read is used only where the read succeeded
+						if good && !guardedUsesOf(call, ev) {
+							good, why = false, "the state read is used on a path that does not cross the success edge of the read"
+						}
+					} else if !guardedUsesOf(call, ev) {
+						why = "the failure of the read is not told apart from an empty record"
+					}
+				}
+				c.Ok(rule, fnShort(fn)+" stops when "+ci.Common().Method.Name()+" fails", shortPos(c.P, ci), good, why)
+			}
+		}
+	}
+	c.Floor(rule, "reads of the DKG records", n, 6)
+}
+
+// errComesFrom: v is ev, a phi with an edge from it, or a wrapping (fmt.Errorf, errors.Join, Wrap) of it.
+func errComesFrom(v, ev ssa.Value, d int) bool {
+	v = stripConv(v)
+	if v == ev || derivesFrom(v, ev, 0) {
+		return true
+	}
+	if d > 4 {
+		return false
+	}
+	if call, ok := v.(*ssa.Call); ok {
+		for _, a := range call.Call.Args {
+			if errComesFrom(a, ev, d+1) {
+				return true
+			}
+		}
+		for _, a := range variadicElems(call) {
+			if errComesFrom(a, ev, d+1) {
+				return true
+			}
+		}
+	}
+	return false
+}
+
+// guardedUsesOf: every use of the non-error results of call lies behind the success edge of its error.
+func guardedUsesOf(call *ssa.Call, ev ssa.Value) bool {
+	if call.Referrers() == nil {
+		return true
+	}
+	for _, r := range *call.Referrers() {
+		ex, ok := r.(*ssa.Extract)
+		if !ok || ssa.Value(ex) == ev || ex.Referrers() == nil {
+			continue
+		}
+		for _, u := range *ex.Referrers() {
+			if _, isDbg := u.(*ssa.DebugRef); isDbg {
+				continue
+			}
+			if _, isPhi := u.(*ssa.Phi); isPhi {
+				continue
+			}
+			if _, isSt := u.(*ssa.Store); isSt {
+				continue
+			}
+			if b, isB := u.(*ssa.BinOp); isB && isNilConst(b.Y) {
+				continue
+			}
+			if !mustCross(u, func(e edge) bool { return okEdge(e, ev) }) {
+				return false
+			}
+		}
+	}
+	return true
 }
